@@ -492,6 +492,10 @@ impl HelpTemplate<'_, '_> {
                     arg.get_id(),
                     longest
                 );
+            } else {
+                // A short-only flag is written without the long-flag gutter, yet it can be wider
+                // than `-x` (e.g. `-v...`); `align_to_about` pads relative to `longest`.
+                longest = longest.max(display_width(&arg.to_string()));
             }
 
             let key = (sort_key)(arg);
